@@ -473,6 +473,30 @@ fn durable_log_growth(req: &Value) -> Value {
     json!({"ok": ok, "log_bytes_when_apply_started": a, "log_bytes_at_return": at_return, "last_record": tail_kind, "violates": ok && a != u64::MAX && at_return > a})
 }
 
+/// C11 D5: an embedding key written without a vector first (so that entity ids of the live run and of the replay drift apart),
+/// then a second embedding key written twice with different vectors; after a restart from the log the key must show the last one.
+fn durable_replay_embedding(_req: &Value) -> Value {
+    use tensor_store::{TensorData, TensorStore, TensorValue, ScalarValue};
+    let dir = tmpdir();
+    let path = dir.join("replay.wal");
+    let store = match TensorStore::open_durable(&path, WalConfig::default()) { Ok(s) => s, Err(e) => return json!({"error": e.to_string()}) };
+    // 384 is the store's default embedding dimension (the slab refuses other sizes)
+    let val = |rev: i64, v: Option<f32>| { let mut d = TensorData::new(); d.set("rev", TensorValue::Scalar(ScalarValue::Int(rev))); if let Some(x) = v { d.set("_embedding", TensorValue::Vector(vec![x; 384])); } d };
+    let _ = store.put_durable("emb:plain", val(0, None));
+    let _ = store.put_durable("emb:doc", val(1, Some(1.0)));
+    let _ = store.put_durable("emb:doc", val(2, Some(2.0)));
+    let read = |s: &TensorStore| s.get("emb:doc").ok().map(|t| {
+        let rev = match t.get("rev") { Some(TensorValue::Scalar(ScalarValue::Int(i))) => *i, _ => -1 };
+        let e = match t.get("_embedding") { Some(TensorValue::Vector(x)) => x.first().copied().unwrap_or(-1.0), Some(TensorValue::Sparse(x)) => x.to_dense().first().copied().unwrap_or(-1.0), _ => -1.0 };
+        (rev, e)
+    });
+    let mem = read(&store);
+    drop(store);
+    let rec = TensorStore::recover(&path, &WalConfig::default(), None).ok().and_then(|s| read(&s));
+    let _ = std::fs::remove_dir_all(&dir);
+    json!({"readers_last_saw": mem, "recovered_after_restart": rec, "violates": mem != rec})
+}
+
 /// W5: r1, cut inside it, reopen, append r2, cut inside it, reopen, append r3, restart; which records the final replay has.
 macro_rules! double_crash {
     ($name:ident, $open:expr, $rec:expr) => {
@@ -517,6 +541,7 @@ pub fn handle(op: &str, req: &Value) -> Option<Value> {
         "durable_op" => durable_op(req),
         "durable_order" => durable_order(req),
         "durable_stress" => durable_stress(req),
+        "durable_replay_embedding" => durable_replay_embedding(req),
         "durable_log_growth" => durable_log_growth(req),
         "checkpoint_race" => checkpoint_race(req),
         "durable_checkpoint" => durable_checkpoint(req),
